@@ -705,6 +705,30 @@ def case_errors(case, col=None):
                 raise Violation(f"number_accepted_for_dimensional_quantity:{tag}", f"Q({case['x']},{ua}) +/- {n!r} returned {_short(r)}")
             if r[1] != "DimensionalityError":
                 raise Violation(f"number_wrong_exception:{r[1]}", f"{r[2]!r}")
+    if not (R.resolve(ua).tainted or R.resolve(ua).irrational) and R.resolve(ua).factor > 0:
+        _number_ordering(case, a, n, da, R)
+
+
+def _number_ordering(case, a, n, da, R):
+    """ordering / equality with a bare number: defined for dimensionless quantities (by value, whatever the dimensionless unit) and for zero"""
+    nan = isinstance(n, float) and n != n
+    if nan:
+        return
+    value = Fraction(case["x"]) * Fraction(R.resolve(case["ua"]).factor)
+    for tag, fn, want in (("q<n", lambda: a < n, value < n), ("n<q", lambda: n < a, n < value), ("q>=n", lambda: a >= n, value >= n), ("q==n", lambda: a == n, value == n), ("n==q", lambda: n == a, value == n)):
+        r = _run(fn)
+        if (not da) or n == 0:
+            if "==" in tag and da and n == 0:
+                want = value == 0
+            if r[0] == "err":
+                raise Violation(f"number_comparison_refused:{tag}", f"Q({case['x']},{case['ua']}) {tag} with n={n!r}: {r[2]!r}")
+            if bool(r[1]) != want:
+                raise Violation(f"number_comparison_wrong:{tag}", f"Q({case['x']},{case['ua']}) {tag} with n={n!r} is {r[1]}, by value {want}")
+        elif "==" in tag:
+            if r[0] == "err" or bool(r[1]):
+                raise Violation(f"number_equal_to_dimensional_quantity:{tag}", f"Q({case['x']},{case['ua']}) {tag} with n={n!r}: {_short(r)}")
+        elif r[0] == "ok":
+            raise Violation(f"number_ordered_against_dimensional_quantity:{tag}", f"Q({case['x']},{case['ua']}) {tag} with n={n!r} returned {r[1]!r}")
 
 
 def run_errors(task, tier, seed, col):
